@@ -36,6 +36,7 @@ type session struct {
 	pending   []*image
 	nWalSegs  int
 	lastOpCut bool
+	dead      bool // the session cannot go on (workload error or listed finding)
 }
 
 type image struct {
@@ -143,6 +144,10 @@ func (s *session) takeImages(kind string, permille int, file string) {
 	s.point++
 	if permille > 999 {
 		permille = 999
+	}
+	if r.noCrash && !r.ch.replay {
+		r.ch.forceChance(false)
+		return
 	}
 	enum := r.mode != modeSample && s.level == 1 && !r.ch.replay
 	var files []fileState
@@ -263,8 +268,11 @@ func b2i(b bool) int {
 
 // ---- workload -----------------------------------------------------------------
 
+const sigOverwritten = "C16/recovery/overwritten-entry-returned-after-snapshot"
+
 func (s *session) harness(err error, what string) bool {
 	if err != nil {
+		s.dead = true
 		s.r.fail("C16/harness/workload-error", "%s failed at op %d (%s): %v", what, s.opIdx, s.opKind, err)
 		return true
 	}
@@ -275,6 +283,9 @@ func (s *session) completed(obliged bool) {
 	s.m.done = len(s.m.W)
 	segs := s.walSegs()
 	s.lastOpCut = segs != s.nWalSegs
+	if s.lastOpCut {
+		s.m.cuts = append(s.m.cuts, len(s.m.W))
+	}
 	if obliged || segs != s.nWalSegs {
 		// obliged by the Raft contract, or a segment cut completed
 		s.m.d = len(s.m.W)
@@ -301,7 +312,7 @@ func (s *session) runOps(ops []op) {
 		s.pending = nil
 	}()
 	for i, o := range ops {
-		if r.failed() {
+		if r.failed() || s.dead {
 			return
 		}
 		s.opIdx, s.opKind, s.opSyncs = i, o.K, 0
@@ -316,6 +327,9 @@ func (s *session) runOps(ops []op) {
 		if r.failed() {
 			return
 		}
+	}
+	if s.dead || s.w == nil {
+		return
 	}
 	// clean shutdown
 	s.opIdx, s.opKind, s.opSyncs = len(ops), "close", 0
@@ -432,11 +446,12 @@ func (s *session) exec(o op) {
 		s.armed = false
 		res := recoverDirs(s.walDir, s.snapDir, false, true)
 		s.armed = true
-		if !s.checkClean(res, "reopen") {
+		if !s.checkClean(res, "reopen") && (r.failed() || res.w == nil) {
 			closeQuietly(res.w)
+			s.dead = true
 			return
 		}
-		s.w = res.w
+		s.w = res.w // (also after a listed finding: the run goes on)
 		s.nWalSegs = s.walSegs()
 	}
 }
@@ -469,6 +484,11 @@ func (s *session) checkClean(res *recResult, what string) bool {
 		}
 		k := matchPrefix(m.W, len(m.W), res.walsnap.Index, m.meta, rec)
 		if k != len(m.W) {
+			if b, kl := matchLiteral(m.W, len(m.W), m.cuts, res.walsnap.Index, rec); kl == len(m.W) {
+				r.fail(sigOverwritten, "%s after a clean close: read back %s at snapshot %d, which is what ReadAll literally folds from records %d..%d, but the log the saves describe is %s: an overwritten entry past the snapshot index was returned",
+					what, describe(rec), res.walsnap.Index, b, kl, describeFold(m.W, len(m.W), res.walsnap.Index))
+				return false
+			}
 			r.fail("C16/recovery/clean-reopen-mismatch", "%s after a clean close: read back %s; written %s (matching prefix %d of %d records)",
 				what, describe(rec), describeFold(m.W, len(m.W), res.walsnap.Index), k, len(m.W))
 			return false
